@@ -18,7 +18,7 @@ TEXT = {
             'L1 solver-checked for operands < 2^8 (quick) / 2^11 (thorough), argued to 2^26, not claimed above.'),
     'C07': ('Unit harnesses with unbounded symbolic rates/capacities: ingest stream deposits rate per step for duration steps, removal frees exactly the data once, admission predicate equals the room oracle (including data still to arrive), two overlapping ingests through the real admission path, the data of a finished workflow freed while another observation is mid-ingest, two Buffer objects built in one interpreter share nothing; whole simulations check both tiers after every step.',
             'Bounds: durations 1..4, two overlapping observations. Refusal paths that format operands into messages run over small case-split ranges.'),
-    'C08': ('One timestep of the real Telescope/Scheduler/Cluster/Buffer from symbolic load states (pools by prelude incl. machines reserved-idle for a batch workflow, arrays in use, unbounded buffer space/rates, two observations due); every started observation is checked against the state after earlier starts of the same step; on-time clause for an idle system; whole simulations (incl. four observations competing for the arrays) check array/ingest limits independently of the telescope's own counter, and ingest hold times.',
+    'C08': ('One timestep of the real Telescope/Scheduler/Cluster/Buffer from symbolic load states (pools by prelude incl. machines reserved-idle for a batch workflow, arrays in use, unbounded buffer space/rates, two observations due); every started observation is checked against the state after earlier starts of the same step; on-time clause for an idle system; whole simulations (incl. four observations competing for the arrays) check array/ingest limits independently of the counter kept by the telescope, and ingest hold times.',
             'Bounds: 3 machines, 2 observations per step; quick tier varies array and machine resources in separate shards.'),
     'C09': ('Real BatchProcessing._provision_resources/_max_resource_provision/run on symbolic cluster states (1..4 machines, pools, partitions, minimum, per-observation split); foreign reserved machine refused; release returns the reservation; whole simulations with competing workflows check every allocation against the owner reservation and, every step, the size of each reservation (idle + busy for its owner) against its configured maximum.',
             'min_resources_per_workflow >= 1 (documented domain).'),
